@@ -618,15 +618,32 @@ def install_more(models):
             if not chars:
                 return err()
         W = bits + 8
-        val = z3.BitVecVal(0, W)
         bad = []
         re_ = radix if isinstance(radix, int) else None
         rterm = z3.BitVecVal(radix, 32) if isinstance(radix, int) else radix.e
-        for ch in chars:
+        # the arithmetic is done in the narrowest width that holds radix^len (exact, then zero-extended): a 136-bit
+        # multiplier chain stalls the bit-blaster for nothing when the text has a dozen digits
+        Wc = W
+        if re_ is not None:
+            Wc = min(W, max(33, (re_ ** len(chars)).bit_length() + 1))
+        val = z3.BitVecVal(0, Wc)
+        n = len(chars)
+        for pos, ch in enumerate(chars):
             e = ch.e if isinstance(ch, SV) else z3.BitVecVal(ch, 32)
             d = digit_value(e)
             bad.append(z3.UGE(d, rterm))
-            val = val * z3.ZeroExt(W - 32, rterm) + z3.ZeroExt(W - 32, d)
+            if re_ is not None and (re_ & (re_ - 1)) != 0:
+                # digit * radix^(n-1-pos) as a table look-up: the sum needs adders only (a multiplier chain by 10 makes
+                # `value mod 2^32 == constant` queries take minutes)
+                weight = re_ ** (n - 1 - pos)
+                term = z3.BitVecVal(0, Wc)
+                for k in range(re_ - 1, 0, -1):
+                    term = z3.If(d == k, z3.BitVecVal((k * weight) & ((1 << Wc) - 1), Wc), term)
+                val = val + term
+            else:
+                val = val * z3.ZeroExt(Wc - 32, rterm) + z3.ZeroExt(Wc - 32, d)
+        if Wc < W:
+            val = z3.ZeroExt(W - Wc, val)
         isbad = z3.simplify(z3.Or(bad))
         if z3.is_true(isbad) or (not z3.is_false(isbad) and ex.branch_bool(SB(isbad))):
             return err()
